@@ -1,5 +1,6 @@
 """C11 - tally up honours every setting: report = totals(classify(parse(sources)))."""
 from engine.ob import REPO_SRC  # noqa: E402
+from engine.ob import pick as _pick, flag as _flag  # noqa: F401
 from engine.ob import Obligation, post, reset_tally_caches
 from harness import wiring as W
 
@@ -47,7 +48,7 @@ def run_wiring(n, kind, focus='sources'):
                  {'supplemental': False, 'exists': ex2, 'raises': False, 'comma_decimal': cd2, 'negate': True}][:n]
         mode = 'most_specific' if ms else 'first_match'
         rec = W.Recorder(flags, rule_mode=mode, rules_kind=kind, views=views)
-        fmtname = ['summary', 'json', 'markdown', 'html'][int(fmt)]
+        fmtname = ['summary', 'json', 'markdown', 'html'][_pick(fmt, 4)]
         args = W.run_args(format=fmtname, summary=(fmtname == 'summary'), output='/budget/out.html')
         code = W.run_command(runmod, 'cmd_run', args, rec)
         parses = [c for c in rec.calls if c[0] == 'parse']
@@ -90,13 +91,19 @@ def run_wiring(n, kind, focus='sources'):
         """
         return core(sup0=sup0, sup1=sup1, ex0=ex0, ex1=ex1, ex2=ex2, rs0=rs0, rs1=rs1, ms=True, views=True, fmt=1)
 
-    def ob_settings(cd0: bool, cd1: bool, cd2: bool, ms: bool, views: bool, fmt: int, sup1: bool) -> bool:
+    def ob_settings(cd0: bool, cd1: bool, cd2: bool, ms: bool, sup1: bool) -> bool:
+        """
+        post: _
+        """
+        return core(cd0=cd0, cd1=cd1, cd2=cd2, ms=ms, views=True, fmt=1, sup1=sup1)
+
+    def ob_output(ms: bool, views: bool, fmt: int, sup1: bool, ex1: bool) -> bool:
         """
         pre: 0 <= fmt <= 3
         post: _
         """
-        return core(cd0=cd0, cd1=cd1, cd2=cd2, ms=ms, views=views, fmt=fmt, sup1=sup1)
-    return {'sources': ob_sources, 'settings': ob_settings}[focus]
+        return core(ms=ms, views=views, fmt=fmt, sup1=sup1, ex1=ex1)
+    return {'sources': ob_sources, 'settings': ob_settings, 'output': ob_output}[focus]
 
 
 class _OsPath:
@@ -138,6 +145,7 @@ def load_config_ob(focus='overrides'):
             s1['negate_amount'] = True
         settings = {'year': 2024, 'data_sources': [s0, s1]}
         modes = [None, 'first_match', 'most_specific', 'bogus']
+        mode = _pick(mode, 4)
         if modes[int(mode)] is not None:
             settings['rule_mode'] = modes[int(mode)]
         if has_mf:
@@ -183,9 +191,10 @@ def obligations(tier, seed):
     obs = []
     for n in ([2, 3] if q else [1, 2, 3]):
         for kind in (['rules', 'csv'] if q else ['rules', 'csv', 'none']):
-            for focus in ['sources', 'settings']:
+            for focus in ['sources', 'settings', 'output']:
                 obs.append(Obligation(id=f'run-n{n}-{kind}-{focus}', factory='run_wiring', params={'n': n, 'kind': kind, 'focus': focus}, timeout=170 if q else 1200,
-                                      group='cmd_run wiring', bounds=f'{n} sources, rules file kind {kind}; symbolic ' + ('supplemental / file-exists / parser-raises flags per source' if focus == 'sources' else 'decimal separator per source, rule mode, views flag, output format, one supplemental flag')))
+                                      group='cmd_run wiring', bounds=f'{n} sources, rules file kind {kind}; symbolic ' + {'sources': 'supplemental / file-exists / parser-raises flags per source', 'settings': 'decimal separator per source, rule mode, one supplemental flag (views on, format json)',
+                                                                                                                         'output': 'rule mode, views flag, output format (4), one supplemental flag, one file-exists flag'}[focus]))
     for focus in ['overrides', 'files']:
         obs.append(Obligation(id=f'load-config-{focus}', factory='load_config_ob', params={'focus': focus}, timeout=170 if q else 900, group='load_config',
                               bounds='2 sources with the same format text; symbolic ' + ('delimiter/header/negate overrides per source' if focus == 'overrides' else 'rule_mode (absent/first_match/most_specific/invalid), merchants_file present/exists, legacy CSV exists')))
